@@ -105,6 +105,14 @@ mut('m01a-client-omits-masking-nonce', ['C01', 'C04', 'C07'], 'src/messages.rs',
             .into_iter()
             .chain(masked_response.iter())''')
 
+mut('m09h-h2s-swapped-args', ['C09'], 'src/key_exchange/group/elliptic_curve.rs',
+    'Self::hash_to_scalar::<ExpandMsgXmd<H>>(input, dst)', 'Self::hash_to_scalar::<ExpandMsgXmd<H>>(dst, input)')
+mut('m09i-h2s-truncated-dst', ['C09'], 'src/key_exchange/group/ristretto255.rs',
+    '<voprf::Ristretto255 as Group>::hash_to_scalar::<H>(input, dst)\n            .map_err(InternalError::OprfInternalError)',
+    '<voprf::Ristretto255 as Group>::hash_to_scalar::<H>(input, &dst[..1])\n            .map_err(InternalError::OprfInternalError)')
+mut('m11z-zero-test-against-one', ['C11'], 'src/key_exchange/group/ristretto255.rs',
+    '        scalar.ct_eq(&Scalar::ZERO)\n', '        scalar.ct_eq(&Scalar::ONE)\n')
+
 def run(cmd, **kw):
     return subprocess.run(cmd, shell=True, capture_output=True, text=True, **kw)
 
